@@ -277,7 +277,7 @@ func checkNoOtherDecoder(r *Run) {
 	r.Rule("C12.S2", "no other decoder: outside pkg/base/serde no non-test code calls a decoding entry point of fxamacker/cbor, encoding/json, encoding/gob or encoding/xml (or a cbor.DecMode/Decoder method); every UnmarshalCBOR method obtains its data from a checked serde.UnmarshalCBOR call")
 	p := r.Prog
 	nCalls := 0
-	for _, fd := range p.FuncsIn(Scope{Include: []string{"pkg/"}, Exclude: []string{"pkg/base/serde/"}}) {
+	for _, fd := range p.AllFuncsIn(Scope{Include: []string{"pkg/"}, Exclude: []string{"pkg/base/serde/"}}) {
 		info := fd.Pkg.TypesInfo
 		ast.Inspect(fd.Decl.Body, func(n ast.Node) bool {
 			c, ok := n.(*ast.CallExpr)
@@ -792,7 +792,7 @@ func checkWriterReader(r *Run) {
 	regTag := map[string]string{} // type string -> tag
 	tagOwner := map[string]string{}
 	nReg := 0
-	for _, fd := range p.FuncsIn(Scope{Include: []string{"pkg/"}}) {
+	for _, fd := range p.AllFuncsIn(Scope{Include: []string{"pkg/"}}) {
 		info := fd.Pkg.TypesInfo
 		ast.Inspect(fd.Decl.Body, func(n ast.Node) bool {
 			c, ok := n.(*ast.CallExpr)
